@@ -41,7 +41,7 @@ theorem encItem_prefix : (it : Item) → (t : List Lbl) → t <+: (encItem t it)
     · exact List.prefix_refl t
     · exact addUnique_prefix t o
   | .position o, t => by simp only [encItem]; exact addUnique_prefix t o
-  | .object o _ body, t => by
+  | .object _ o _ body, t => by
     simp only [encItem]
     exact (addUnique_prefix t o).trans (encItems_prefix body _)
 theorem encItems_prefix : (w : List Item) → (t : List Lbl) → t <+: (encItems t w).1
@@ -60,7 +60,7 @@ mutual
 /-- the sequence as the reading calls return it before `Close`: pointer slots hold archive indices -/
 def rawItem (T : List Lbl) : Item → Item
   | .ptr safe o => .ptr safe (if o = 0 then 0 else idxIn T o)
-  | .object o cls body => .object o cls (rawItems T body)
+  | .object m o cls body => .object m o cls (rawItems T body)
   | .prim p v => .prim p v
   | .raw bs => .raw bs
   | .str bs => .str bs
@@ -74,7 +74,7 @@ mutual
 /-- labels registered by the reading calls (`AddObjectAt`), in order -/
 def regLabelsItem : Item → List Lbl
   | .position o => [o]
-  | .object o _ body => regLabels body ++ [o]
+  | .object _ o _ body => regLabels body ++ [o]
   | _ => []
 def regLabels : List Item → List Lbl
   | [] => []
@@ -85,7 +85,7 @@ mutual
 /-- fix-ups queued by the reading calls (latest first) -/
 def newFixItem (T : List Lbl) : Item → List Nat
   | .ptr _ o => if o = 0 then [] else [idxIn T o]
-  | .object _ _ body => newFix T body
+  | .object _ _ _ body => newFix T body
   | _ => []
 def newFix (T : List Lbl) : List Item → List Nat
   | [] => []
@@ -106,7 +106,7 @@ mutual
 def WFItem (cfg : Cfg) (classes : List Bytes) : Item → Prop
   | .prim p v => v < 256 ^ p.width
   | .str bs => strAlloc bs.length < cfg.allocLimit
-  | .object _ cls body =>
+  | .object _ _ cls body =>
     getClass classes cls = some cls ∧ strAlloc cls.length < cfg.allocLimit ∧ WFItems cfg classes body
   | _ => True
 def WFItems (cfg : Cfg) (classes : List Bytes) : List Item → Prop
@@ -207,7 +207,7 @@ theorem readItem_enc (cfg : Cfg) (classes : List Bytes) (T : List Lbl)
     simp only [Res.bind, hu]
     rw [addAt_ok cfg (idxIn T o) o tail (pos + 4 + 4) true R F e2 (by omega) (by omega)]
     simp [setL, e4, Prim.width, Nat.add_assoc]
-  | .object o cls body, t, tail, pos, R, F, hp, hw, hR, hl => by
+  | .object m o cls body, t, tail, pos, R, F, hp, hw, hR, hl => by
     simp only [WFItem] at hw
     obtain ⟨hc, hca, hwb⟩ := hw
     simp only [encItem] at hp hl
@@ -230,13 +230,13 @@ theorem readItem_enc (cfg : Cfg) (classes : List Bytes) (T : List Lbl)
       ((encItems (addUnique t o).1 body).2 ++ tail) none (pos + 4 + 8 + (encStr cls).length) R F 4
       (by simp [Prim.width])
     simp only [List.append_assoc] at e5
-    simp only [ne_eq, not_true_eq_false, ↓reduceIte, List.append_assoc]
+    simp only [ne_eq, not_true_eq_false, and_false, ↓reduceIte, List.append_assoc]
     rw [e5]
     have hu : unle (le (Prim.u32).width (idxIn T o)) = idxIn T o := unle_le_of_lt (by simp [Prim.width]; omega)
     have h6 : ¬ (idxIn T o = 0) := by omega
     have h7 : ¬ (idxIn T o > R.length) := by omega
     simp only [Res.bind, hu, beq_iff_eq, h6, decide_eq_true_eq, h7, or_self, Bool.and_false, Bool.false_eq_true,
-      ↓reduceIte, Bool.or_self, decide_false]
+      ↓reduceIte, Bool.or_self, decide_false, bracket_ite]
     rw [readItems_enc cfg classes T hT hA body (addUnique t o).1 tail _ R F hp hwb hR hbl]
     have hs : unle (le 8 (encItems (addUnique t o).1 body).2.length) = (encItems (addUnique t o).1 body).2.length :=
       unle_le_of_lt (by omega)
@@ -279,7 +279,7 @@ mutual
 /-- non-null pointer targets of a sequence -/
 def ptrTargetsItem : Item → List Lbl
   | .ptr _ o => if o = 0 then [] else [o]
-  | .object _ _ body => ptrTargets body
+  | .object _ _ _ body => ptrTargets body
   | _ => []
 def ptrTargets : List Item → List Lbl
   | [] => []
@@ -340,7 +340,7 @@ theorem fixItem_raw (T Rf : List Lbl) : (it : Item) →
     · have := h o (by simp [ptrTargetsItem, ho])
       simp only [List.getD_eq_getElem?_getD] at this
       simp [rawItem, fixItem, ho, idxIn, this]
-  | .object o cls body, h => by
+  | .object m o cls body, h => by
     simp only [rawItem, fixItem]
     rw [fixItems_raw T Rf body (by simpa [ptrTargetsItem] using h)]
 theorem fixItems_raw (T Rf : List Lbl) : (w : List Item) →
@@ -361,7 +361,7 @@ theorem regLabelsItem_subset : (it : Item) → (t : List Lbl) → ∀ l ∈ regL
   | .position o, t => by
     simp only [regLabelsItem, encItem, List.mem_singleton]
     rintro l rfl; exact mem_addUnique t l
-  | .object o _ body, t => by
+  | .object _ o _ body, t => by
     simp only [regLabelsItem, encItem, List.mem_append, List.mem_singleton]
     rintro l (h | rfl)
     · exact regLabels_subset body _ l h
@@ -389,7 +389,7 @@ theorem newFixItem_bounds (T : List Lbl) : (it : Item) → (t : List Lbl) → (e
       obtain ⟨_, e2, e3, _⟩ := idx_bounds hp
       simp only [newFixItem, ho, ↓reduceIte, List.mem_singleton]
       rintro i rfl; exact ⟨e2, e3⟩
-  | .object o _ body, t, hp => by
+  | .object _ o _ body, t, hp => by
     simp only [encItem] at hp
     simp only [newFixItem]
     exact newFix_bounds T body _ hp
@@ -420,7 +420,7 @@ theorem encItem_table_le : (it : Item) → (t : List Lbl) →
   | .position o, t => by
     have := addUnique_length_le t o
     simp [encItem, Prim.width]; omega
-  | .object o _ body, t => by
+  | .object _ o _ body, t => by
     have h1 := addUnique_length_le t o
     have h2 := encItems_table_le body (addUnique t o).1
     simp only [encItem, List.length_append, tagB_length, le_length]
@@ -492,7 +492,7 @@ theorem ptrTargetsItem_ne_zero : (it : Item) → ∀ o ∈ ptrTargetsItem it, o 
   | .position _ => by simp [ptrTargetsItem]
   | .ptr _ o => by
     by_cases ho : o = 0 <;> simp [ptrTargetsItem, ho]
-  | .object _ _ body => by simpa [ptrTargetsItem] using ptrTargets_ne_zero body
+  | .object _ _ _ body => by simpa [ptrTargetsItem] using ptrTargets_ne_zero body
 theorem ptrTargets_ne_zero : (w : List Item) → ∀ o ∈ ptrTargets w, o ≠ 0
   | [] => by simp [ptrTargets]
   | i :: is => by
